@@ -501,6 +501,11 @@ pub fn cells(tier: Tier) -> Vec<CellPlan> {
         c.oracles = Oracles { c10: true, c02: true, ..Default::default() };
         v.push(plan(c, 0, 4.0));
     }
+    {
+        let mut c = cells::three_comps("C10", 1);
+        c.oracles = Oracles { c10: true, c02: true, c01: true, ..Default::default() };
+        v.push(plan(c, 1, 1.0));
+    }
     // A related group with one member hidden from the client (blacklist): the visible members
     // still travel together, the hidden one not at all.
     for &max in &[26usize, 1200] {
